@@ -8,6 +8,7 @@ inductive St where
   | ipool (p : IPool)
   | sop (st : Nat) (p : SOPx) (zt : List (Nat × Nat × Nat))  -- sizeof(storage_type), pool, zone table
   | mpool (m : Links) (s : MState) (zt : List (Nat × Nat × Nat))  -- several zones: (base, cells, elemsz)
+  | tri (st : Nat) (p : Pool) (ip : IPool) (sp : SOPx) (slots : List (Nat × Option Nat × Option Nat × Option Nat))  -- the three twins on one history
   | heap (cfg : Cfg) (h : Heap) (ph : PHeap) (slots : List (Nat × Nat))   -- slot ↦ payload offset; list model and `nx`-pointer model side by side
 
 def optS : Option Nat → String
@@ -95,6 +96,18 @@ def earlyLine : String :=
         | some r5 => s!"early a={a} b={b} c={c} brk={brk3} end={r5.h.brk} fl={r5.h.flp.length}"
     | _, _, _ => "fault"
 
+/-- (sizeof T, alignof T, Capacity) of the harness' static_object_pool instantiations, by index -/
+def sopKinds : List (Nat × Nat × Nat) :=
+  [(1, 1, 1), (1, 1, 5), (4, 4, 2), (8, 8, 7), (12, 4, 3), (12, 4, 33), (24, 8, 1), (24, 8, 6), (40, 8, 9),
+   (32, 32, 4), (48, 16, 5), (64, 8, 33), (2, 2, 16), (16, 16, 8), (96, 32, 3), (7, 1, 10)]
+
+def nn : Option Nat → String
+  | none => "null"
+  | some _ => "cell"
+
+def triLine (r1 r2 r3 : String) (p : Pool) (ip : IPool) (sp : SOPx) : String :=
+  s!"{r1} {p.avail} | {r2} {ip.room} {ip.avail} | {r3} {sp.sop.avail} {sp.sop.objs.length} {sp.ctor.length} {sp.dtor.length}{if sp.sop.fault then " FAULT" else ""}"
+
 def stepLine (st : St) (line : String) : St × String :=
   let bad := (st, "bad-op")
   let st' := st
@@ -135,6 +148,18 @@ def stepLine (st : St) (line : String) : St × String :=
     | some e, some size =>
       (.idle, if engageRefused size e then "assert" else s!"engaged {(Pool.init.engage size e).avail}")
     | _, _ => bad
+  | ["reset", "tri", idx] =>
+    match idx.toNat? with
+    | some idx =>
+      match sopKinds[idx]? with
+      | some (sz, al, cap) =>
+        let e := storageSize sz al
+        let p := Pool.init.engage (cap * e) e
+        let ip := IPool.init (cap * e) e
+        let sp := SOPx.init sz al cap
+        (.tri e p ip sp [], s!"{e} {cap} | {p.avail} | {ip.cells} {ip.room} {ip.avail} | {sp.sop.avail}")
+      | none => bad
+    | none => bad
   | ["reset", "mpool"] =>
     (.mpool (slistInit (fun _ => 0) 0) MState.init [], s!"ok {availBoth Pool.init (slistInit (fun _ => 0) 0) 0}")
   | "reset" :: "heap" :: l :: _ =>
@@ -208,6 +233,37 @@ def stepLine (st : St) (line : String) : St × String :=
         match sxstep st p (.engage b n) with
         | some (p', _) => (.sop st p' (zt ++ [(b, n, st)]), s!"{p'.sop.avail}")
         | none => (st', "fault")
+      | none => bad
+    | .tri e p ip sp slots, ["a", k] =>
+      match k.toNat? with
+      | some k =>
+        let (r1, p') := p.alloc
+        let (r2, ip') := ip.get
+        match sxstep e sp .create with
+        | some (sp', r3) =>
+          let slots' := (k, r1, r2, r3) :: slots.filter (·.1 ≠ k)
+          (.tri e p' ip' sp' slots', triLine (nn r1) (nn r2) (nn r3) p' ip' sp')
+        | none => (st', "fault")
+      | none => bad
+    | .tri e p ip sp slots, ["f", k] =>
+      match k.toNat? with
+      | some k =>
+        let (c1, c2, c3) := match slots.find? (·.1 = k) with
+          | some (_, a, b, c) => (a, b, c)
+          | none => (none, none, none)
+        let slots' := slots.filter (·.1 ≠ k)
+        let p' := match c1 with
+          | some c => (p.release c).1
+          | none => p
+        match ip.put c2 with
+        | none => (st', "abort")
+        | some (ip', _) =>
+          match c3 with
+          | none => (.tri e p' ip' sp slots', triLine "-" "-" "-" p' ip' sp)
+          | some c =>
+            match sxstep e sp (.destroy c) with
+            | some (sp', _) => (.tri e p' ip' sp' slots', triLine "-" "-" "-" p' ip' sp')
+            | none => (st', "fault")
       | none => bad
     | .mpool m s zt, ["z", n, e] =>
       match n.toNat?, e.toNat? with
